@@ -236,7 +236,7 @@ func (x *Exec) updatePath(term string, path []PathSel, v string) string {
 }
 
 func (x *Exec) placeRootTerm(st *State, p *Place) string {
-	h := x.heapGet(st, p.Arr, p.ElemT)
+	h := x.heapGet(st, p.Arr, placeHeapT(p))
 	switch len(p.Idx) {
 	case 0:
 		return h
@@ -268,17 +268,17 @@ func (x *Exec) valueInv(st *State, t types.Type, term string) string {
 }
 
 func (x *Exec) storePlace(st *State, p *Place, v string) {
-	h := x.heapGet(st, p.Arr, p.ElemT)
+	h := x.heapGet(st, p.Arr, placeHeapT(p))
 	switch len(p.Idx) {
 	case 0:
-		x.heapSet(st, p.Arr, p.ElemT, x.updatePath(h, p.Path, v))
+		x.heapSet(st, p.Arr, placeHeapT(p), x.updatePath(h, p.Path, v))
 	case 1:
 		cur := "(select " + h + " " + p.Idx[0] + ")"
-		x.heapSet(st, p.Arr, p.ElemT, "(store "+h+" "+p.Idx[0]+" "+x.updatePath(cur, p.Path, v)+")")
+		x.heapSet(st, p.Arr, placeHeapT(p), "(store "+h+" "+p.Idx[0]+" "+x.updatePath(cur, p.Path, v)+")")
 	default:
 		row := "(select " + h + " " + p.Idx[0] + ")"
 		cur := "(select " + row + " " + p.Idx[1] + ")"
-		x.heapSet(st, p.Arr, p.ElemT, "(store "+h+" "+p.Idx[0]+" (store "+row+" "+p.Idx[1]+" "+x.updatePath(cur, p.Path, v)+"))")
+		x.heapSet(st, p.Arr, placeHeapT(p), "(store "+h+" "+p.Idx[0]+" (store "+row+" "+p.Idx[1]+" "+x.updatePath(cur, p.Path, v)+"))")
 	}
 }
 
@@ -291,7 +291,30 @@ func (x *Exec) placeOf(v V) *Place {
 	if !ok {
 		panic(fmt.Sprintf("placeOf: not a pointer: %v", v.T))
 	}
+	// objects of array type live in the slice storage of their element type (row = the
+	// array), so that slicing an array aliases it exactly
+	if arr, ok := pt.Elem().Underlying().(*types.Array); ok {
+		return &Place{Arr: heapKeySlice(arr.Elem()), Idx: []string{v.S}, ElemT: pt.Elem()}
+	}
 	return &Place{Arr: heapKeyObj(pt.Elem()), Idx: []string{v.S}, ElemT: pt.Elem()}
+}
+
+// placeHeapT: the type argument heapGet/heapSet expect for a place's heap array.
+func placeHeapT(p *Place) types.Type {
+	if strings.HasPrefix(p.Arr, "S:") && len(p.Idx) == 1 {
+		if arr, ok := p.ElemT.Underlying().(*types.Array); ok {
+			return arr.Elem()
+		}
+	}
+	return p.ElemT
+}
+
+// heapKeyForObj: heap array holding objects of type t (see placeOf).
+func heapKeyForObj(t types.Type) (string, types.Type) {
+	if arr, ok := t.Underlying().(*types.Array); ok {
+		return heapKeySlice(arr.Elem()), arr.Elem()
+	}
+	return heapKeyObj(t), t
 }
 
 // ptrTerm encodes a pointer as an SMT Int when possible.
@@ -299,7 +322,7 @@ func (x *Exec) ptrTerm(v V) (string, bool) {
 	if v.Pl == nil {
 		return v.S, true
 	}
-	if len(v.Pl.Path) == 0 && len(v.Pl.Idx) == 1 && strings.HasPrefix(v.Pl.Arr, "H:") {
+	if len(v.Pl.Path) == 0 && len(v.Pl.Idx) == 1 && (strings.HasPrefix(v.Pl.Arr, "H:") || strings.HasPrefix(v.Pl.Arr, "S:")) {
 		return v.Pl.Idx[0], true
 	}
 	return "", false
@@ -321,7 +344,7 @@ func (x *Exec) havocAll(st *State, why string) {
 	}
 	var keep []kept
 	for _, p := range x.protected {
-		h := x.heapGet(st, p.key, p.t)
+		h := x.heapGet(st, p.key, p.ht)
 		keep = append(keep, kept{p, x.define("keep", x.s.sortOf(p.t), "(select "+h+" "+p.ref+")")})
 	}
 	st.heap = map[string]string{}
@@ -331,14 +354,15 @@ func (x *Exec) havocAll(st *State, why string) {
 	x.assume("true", "(>= "+na+" "+st.alloc+")")
 	st.alloc = na
 	for _, k := range keep {
-		h := x.heapGet(st, k.p.key, k.p.t)
-		x.heapSet(st, k.p.key, k.p.t, "(store "+h+" "+k.p.ref+" "+k.val+")")
+		h := x.heapGet(st, k.p.key, k.p.ht)
+		x.heapSet(st, k.p.key, k.p.ht, "(store "+h+" "+k.p.ref+" "+k.val+")")
 	}
 }
 
 type protEntry struct {
 	key string
-	t   types.Type
+	t   types.Type // type of the protected object
+	ht  types.Type // type argument of its heap array (element type for array objects)
 	ref string
 }
 
@@ -350,7 +374,7 @@ func (x *Exec) restoreProtected(st *State, key string, old string) {
 			continue
 		}
 		h := st.heap[key]
-		x.heapSet(st, key, p.t, "(store "+h+" "+p.ref+" (select "+old+" "+p.ref+"))")
+		x.heapSet(st, key, p.ht, "(store "+h+" "+p.ref+" (select "+old+" "+p.ref+"))")
 	}
 }
 
